@@ -206,6 +206,7 @@ func (t *Collection) SetItem(item *Item) (err error) {
 	defer t.freeNodeLoc(nloc)
 	r, err := t.store.union(t, root, nloc, &rnl.reclaimMark)
 	if err != nil {
+		t.reclaimUnmark(root, &rnl.reclaimMark) // The version stays current.
 		return err
 	}
 	rnlNew := t.mkRootNodeLoc(r)
@@ -250,6 +251,7 @@ func (t *Collection) Delete(key []byte) (wasDeleted bool, err error) {
 	t.store.ItemDecRef(t, i)
 	left, middle, right, err := t.store.split(t, root, key, &rnl.reclaimMark)
 	if err != nil {
+		t.reclaimUnmark(root, &rnl.reclaimMark) // The version stays current.
 		return false, err
 	}
 	defer t.freeNodeLoc(left)
@@ -260,6 +262,7 @@ func (t *Collection) Delete(key []byte) (wasDeleted bool, err error) {
 	}
 	r, err := t.store.join(t, left, right, &rnl.reclaimMark)
 	if err != nil {
+		t.reclaimUnmark(root, &rnl.reclaimMark) // The version stays current.
 		return false, err
 	}
 	rnlNew := t.mkRootNodeLoc(r)
